@@ -50,8 +50,13 @@ def make_malformed_packages(seed, count):
         if d is None:
             continue
         k += 1
-        # a second, valid declaration in the same file must not be emitted either
-        files = [dict(fname="a.go", decls=[d])]
+        # a second, valid declaration in the same file must not be emitted either: the file's output is neither created nor modified
+        decls = [d]
+        if len(pkgs) % 2 == 1:
+            comp = declgen.gen_decl(rnd, 7000 + k, dict(n=rnd.choice([1, 2, 3])))
+            comp["kind"] = "companion"
+            decls = [comp, d] if rnd.random() < 0.5 else [d, comp]
+        files = [dict(fname="a.go", decls=decls)]
         pkgs.append(dict(name="m%d" % len(pkgs), files=files, kind=d["kind"]))
     return pkgs
 
@@ -577,6 +582,11 @@ def _stage(seed, tier, want_malformed, key="S-x"):
                 rec = dict(id=cid, pkg=p["name"], file=f["fname"], name=d["name"], kind=d["kind"], rc=rc, decl=d,
                            stderr=err[-1500:] if rc != 0 else "", problems=[], obs=None)
                 tt = type_table(d)
+                if d["kind"] == "companion":
+                    # a valid declaration sharing its file with a refused one: only the fate of the file matters
+                    rec["untouched"] = (band_text == SENTINEL)
+                    records.append(rec)
+                    continue
                 if p["kind"] != "valid":
                     rec["untouched"] = (band_text == SENTINEL)
                     rec["err_class"] = classify_error(err)
